@@ -55,6 +55,7 @@ type EvalCtx struct {
 	pkg    *types.Package
 	depth  int
 	atCallSite bool
+	assuming   bool
 	callStates map[string]*State
 }
 
@@ -187,6 +188,13 @@ func (fr *Frame) evalClause(c *Clause, st *State, li *loopInfo) *Term {
 	return ctx.evalBool(c.Expr, c)
 }
 
+// evalAssume evaluates a clause that is going to be assumed.
+func (fr *Frame) evalAssume(c *Clause, st *State, li *loopInfo) *Term {
+	ctx := fr.ctx(st, li)
+	ctx.assuming = true
+	return ctx.evalBool(c.Expr, c)
+}
+
 func (ctx *EvalCtx) evalBool(e *CExpr, c *Clause) (res *Term) {
 	defer func() {
 		if r := recover(); r != nil {
@@ -197,6 +205,9 @@ func (ctx *EvalCtx) evalBool(e *CExpr, c *Clause) (res *Term) {
 				}
 				ctx.vc.unsupportedf("contract expression error: %s%s", string(ee), where)
 				res = tFalse
+				if ctx.assuming {
+					res = tTrue // a clause that cannot be evaluated must not be assumed as false (vacuity)
+				}
 				return
 			}
 			panic(r)
@@ -827,8 +838,9 @@ func (ctx *EvalCtx) call(e *CExpr) TV {
 			ctx.fail("fresh() needs an old state")
 		}
 		return boolTV(app(">", app("base", refOf(vc, x)), vc.wm(ctx.old)))
-	case "unchangedPre", "unchangedOld":
+	case "unchangedPre", "unchangedOld", "unchangedPreOld":
 		// all cells of type T that existed at the reference state are unchanged since then
+		// (unchangedPreOld: cells that existed at function entry are unchanged since the loop started)
 		ref := ctx.pre
 		if name == "unchangedOld" {
 			ref = ctx.old
@@ -850,7 +862,34 @@ func (ctx *EvalCtx) call(e *CExpr) TV {
 			if same(h0, h1) {
 				continue
 			}
-			cs = append(cs, leaf(fmt.Sprintf("(forall ((ua Int)) (! (=> (<= (base ua) %s) (= (select %s ua) (select %s ua))) :pattern ((select %s ua))))", vc.wm(ref), h1, h0, h1)))
+			wmRef := vc.wm(ref)
+			if name == "unchangedPreOld" {
+				wmRef = vc.wm(ctx.old)
+			}
+			cs = append(cs, leaf(fmt.Sprintf("(forall ((ua Int)) (! (=> (<= (base ua) %s) (= (select %s ua) (select %s ua))) :pattern ((select %s ua))))", wmRef, h1, h0, h1)))
+		}
+		return boolTV(mkAnd(cs...))
+	case "unchangedPreBut":
+		// unchangedPreBut(T, x): like unchangedPre(T) except for the cells of the array/object x
+		if ctx.pre == nil {
+			ctx.fail("unchangedPreBut only inside loop invariants")
+		}
+		g := vc.parseType(e.Args[0].String(), ctx.pkg)
+		x := arg(1)
+		keys := map[string]bool{}
+		(&Frame{vc: vc}).typeCells(g.Go, keys)
+		var ks []string
+		for k := range keys {
+			ks = append(ks, k)
+		}
+		sort.Strings(ks)
+		var cs []*Term
+		for _, k := range ks {
+			h0, h1 := vc.comp(ctx.pre, k, vc.compSort[k]), vc.comp(ctx.st, k, vc.compSort[k])
+			if same(h0, h1) {
+				continue
+			}
+			cs = append(cs, leaf(fmt.Sprintf("(forall ((ua Int)) (! (=> (and (<= (base ua) %s) (not (= (base ua) (base %s)))) (= (select %s ua) (select %s ua))) :pattern ((select %s ua))))", vc.wm(ctx.pre), refOf(vc, x), h1, h0, h1)))
 		}
 		return boolTV(mkAnd(cs...))
 	case "freshPre":
